@@ -139,3 +139,13 @@ func zzH_C03_block_assets_static_rules(t *zzT) {
 	t.Assert(got == want, "block assets are accepted exactly when their modules are strictly ascending (sorted, unique)")
 	t.Reach("end")
 }
+
+// C04 "the block ID served for every finalized height stays the same forever … not by restart": the ID a block is
+// stored and cached under is the hash of its canonical header, so the ID served from the block cache and the one
+// re-derived from the stored bytes after a restart (or once the block left the cache) agree for EVERY accepted
+// encoding of the block (same obligation as zzH_C08_block_id_stable; seed C04-10 hashed the bytes as received).
+//
+//zz:opt loop=64 require=accepted,rejected
+//zz:quick N=5
+//zz:thorough N=7 budget=1800s
+func zzH_C04_finalized_block_id_stable(t *zzT) { zzH_C08_block_id_stable(t) }
